@@ -15,23 +15,28 @@ fn main() {
     ctx.rng.next();
     let mut cases = gen_cases(&u, &mut ctx.rng, quick);
     // literal spellings: every pair of float spellings, equal and different values
-    for a in FLOATS {
-        for b in FLOATS {
+    let all_floats: Vec<String> = FLOATS.iter().map(|s| s.to_string()).chain(floats_extra().iter().cloned()).collect();
+    for a in &all_floats {
+        for b in &all_floats {
             cases.push(MatchCase {
                 ty: Ty::Float,
-                arms: vec![Pat::Float(a.to_string()), Pat::Float(b.to_string()), Pat::Wild],
+                arms: vec![Pat::Float(a.clone()), Pat::Float(b.clone()), Pat::Wild],
                 origin: "spellings",
             });
-            cases.push(MatchCase {
-                ty: Ty::Tuple(vec![Ty::Float, Ty::Bool]),
-                arms: vec![
-                    Pat::Tuple(vec![Pat::Float(a.to_string()), Pat::Bool(true)]),
-                    Pat::Tuple(vec![Pat::Or(Box::new(Pat::Float(b.to_string())), Box::new(Pat::Float(a.to_string()))), Pat::Wild]),
-                    Pat::Tuple(vec![Pat::Float(b.to_string()), Pat::Bool(false)]),
-                    Pat::Wild,
-                ],
-                origin: "spellings",
-            });
+            // inside a tuple with an or-pattern: only pairs of close or equal values
+            let (x, y) = (f64::from_bits(fbits(a)), f64::from_bits(fbits(b)));
+            if x == y || (x - y).abs() < 1e-9 || (x.is_infinite() || y.is_infinite()) {
+                cases.push(MatchCase {
+                    ty: Ty::Tuple(vec![Ty::Float, Ty::Bool]),
+                    arms: vec![
+                        Pat::Tuple(vec![Pat::Float(a.clone()), Pat::Bool(true)]),
+                        Pat::Tuple(vec![Pat::Or(Box::new(Pat::Float(b.clone())), Box::new(Pat::Float(a.clone()))), Pat::Wild]),
+                        Pat::Tuple(vec![Pat::Float(b.clone()), Pat::Bool(false)]),
+                        Pat::Wild,
+                    ],
+                    origin: "spellings",
+                });
+            }
         }
     }
     placement_selftest(&u, &mut ctx);
